@@ -128,13 +128,35 @@ func (v Val) norm() Val {
 			return c
 		}
 		if v.Lo.Sign() >= 0 {
-			// non-negative signed values: high bits are zero
+			// non-negative signed values behave like unsigned ones: refine both ways
 			if v.Bits == nil {
 				v.Bits = topBits(v.W)
+			} else {
+				v.Bits = append([]Bit{}, v.Bits...)
+			}
+			minB, maxB := new(big.Int), new(big.Int)
+			for i := 0; i < v.W-1; i++ {
+				switch v.Bits[i] {
+				case BOne:
+					minB.SetBit(minB, i, 1)
+					maxB.SetBit(maxB, i, 1)
+				case BZero:
+				default:
+					maxB.SetBit(maxB, i, 1)
+				}
+			}
+			if minB.Cmp(v.Lo) > 0 {
+				v.Lo = minB
+			}
+			if maxB.Cmp(v.Hi) < 0 {
+				v.Hi = maxB
 			}
 			n := v.Hi.BitLen()
 			for i := n; i < v.W; i++ {
 				v.Bits[i] = BZero
+			}
+			if v.IsConst() {
+				return Const(v.Lo, v.W, true)
 			}
 		}
 		return v
